@@ -226,6 +226,44 @@ META = (META[0] + " " + META_EXTRA, META[1])
 META = (META[0] + ' SIB (cv/ref-qualified overloads of one member agree); INITFORM (forwarded packs direct-non-list-initialise).', META[1])
 
 
+def resize_rule(chk, db):
+    """RESIZE: resize() keeps the existing elements as a prefix ([vector.capacity]: appends sz - size() elements, or erases
+    the last size() - sz): every position it hands to insert / emplace is end(), every range it erases ends at end()."""
+    n = 0
+    for f in db.funcs:
+        if f.get("body") is None or f["n"] != "resize" or not any(f["file"].startswith(p) for p in ("_vector/", "_inplace_vector/")):
+            continue
+        sites = []
+        for x in astx.all_exprs(f):
+            if x.get("k") != "call" or not x["a"]:
+                continue
+            nm = astx.callee(x)[0]
+            recv = astx.callee(x)[2]
+            own = recv is None or astx.is_this(astx.strip_casts(recv))
+            if not own:
+                continue
+            if nm in ("insert", "emplace"):
+                sites.append((x, x["a"][0], "inserts at"))
+            elif nm == "erase" and len(x["a"]) == 2:
+                sites.append((x, x["a"][1], "erases up to"))
+        if not sites:
+            continue
+        n += 1
+        construct = astx.sig(f)
+        chk.instance("RESIZE")
+        bad = None
+        for x, pos, what in sites:
+            p0 = astx.strip_casts(pos)
+            is_end = p0 is not None and p0.get("k") == "call" and astx.callee(p0)[0] in ("end", "cend") and not p0["a"]
+            if not is_end and bad is None:
+                bad = (x, pos, what)
+        chk.obligation("RESIZE", construct, bad is None, evaluations=len(sites))
+        if bad:
+            chk.violation("RESIZE", construct, "not-at-end", "%s: resize %s `%s`; the existing elements stay a prefix only if it works at end()" % (
+                astx.loc(f, bad[0]), bad[2], astx.show(bad[1], 30)), {"where": astx.loc(f)})
+    return n
+
+
 def run(chk, tier):
     db = D.load("checks")
     from ..rules import params as _PR
@@ -233,6 +271,9 @@ def run(chk, tier):
     from ..rules import sibs as _SB
     _SB.check(chk, db, ['_vector/', '_inplace_vector/', '_stack/'])      # SIB: cv/ref-qualified overloads of one member agree
     _SB.positive_control(chk)
+    resize_rule(chk, db)
+    from ..rules import iters as _ITE
+    _ITE.erase_count_area(chk, db, ['_vector/', '_inplace_vector/'])      # ERASECNT: erase / erase_if return the number of erased elements
     from ..rules import initform as _IF
     _IF.check(chk, db, ['_vector/', '_inplace_vector/', '_stack/'])      # INITFORM: forwarded packs direct-non-list-initialise
     cap_rule(chk, db)
